@@ -1,5 +1,5 @@
 (* C11 — after reopening, new writes supersede everything recovered.  Only property theorems. *)
-From FJ Require Import Bytes Codec Reader Lsm Tracker Db Prog TxP MapP RecoverP.
+From FJ Require Import Bytes Codec Reader Lsm Tracker Db Prog TxP MapP RecoverP DbOrderP RefineP RecoverInvP.
 
 (* After recovery of ANY disk image (any journal batches in any sealed/active journals, any tables, any
    registry): the next sequence number is above every entry of every recovered keyspace's current version
@@ -23,5 +23,39 @@ Theorem C11_later_write_wins_partial : forall (e : ent) (a : list ent) (k : byte
     if list_eqb (ek e) k then (if is_tomb e then None else Some (ev e)) else value_of (newest k I a).
 Proof. exact append_point_read. Qed.
 
+(* the full clause, over the database model: in EVERY state reached by a program of keyspace creation, writes, batches,
+   clears, ingestion, rotation, worker steps, drains, major compaction and REOPENS — in particular right after a reopen — an
+   accepted insert / remove supersedes whatever was recovered: its key reads the written value (absent for a removal), and
+   every other key of every keyspace reads as before.  Reads: the point read of the latest version at any instant at or
+   above the counter; by C11_reads_agree_after_reopen the scan shows the same. *)
+Theorem C11_later_write_wins : forall mode filters (ops : list rop) id k v vt mvt I i k',
+  let d := fold_left rstep ops (db_init mode filters) in
+  let d' := fst (write_one d id k v vt mvt) in
+  snd (write_one d id k v vt mvt) = ObOk -> d_seqno d' <= I ->
+  absd I d' i k' = if (i =? id) && list_eqb k k' then val_of mvt v else absd I d i k'.
+Proof. exact later_write_wins. Qed.
+
+Theorem C11_reads_agree_after_reopen : forall mode filters (ops : list rop) ks k I,
+  let d := fold_left rstep ops (db_init mode filters) in
+  In ks (d_kss d) ->
+  v_get_ent (k_tree ks) (latest (k_tree ks)) k I = newest k I (v_all (k_tree ks) (latest (k_tree ks))).
+Proof. exact reads_agree_with_reopen. Qed.
+
+(* the counter clause for the model's own reopen of any reachable state *)
+Theorem C11_counter_above_after_reopen : forall mode filters (ops : list rop),
+  let d := do_reopen as_is (fold_left rstep ops (db_init mode filters)) in
+  (forall ks e, In ks (d_kss d) -> In e (v_all (k_tree ks) (latest (k_tree ks))) -> es e < d_seqno d) /\
+  (forall b, In b (J d) -> rb_seqno b < d_seqno d).
+Proof. exact reopen_counter_above. Qed.
+
+Theorem C11_example :
+  let d := fold_left rstep reopen_example (db_init MPlain []) in
+  absd 100 d 1 [107] = Some [7] /\ absd 100 d 1 [108] = Some [2] /\ absd 100 d 1 [109] = Some [3].
+Proof. exact reopen_example_reads. Qed.
+
+Print Assumptions C11_later_write_wins.
+Print Assumptions C11_reads_agree_after_reopen.
+Print Assumptions C11_counter_above_after_reopen.
+Print Assumptions C11_example.
 Print Assumptions C11_seqno_above_all.
 Print Assumptions C11_later_write_wins_partial.
